@@ -61,11 +61,22 @@ theorem rstr_flat (frags : List Frag) (set : List Byte) : Iov.memrstr frags set 
   simp only [Iov.memrstr, Flat.rstr, memrfcn_eq]
 example : Iov.memstr [[1], [], [2, 3]] [9, 3] = some 2 := by decide
 
-/-- `mpt_memtok` for every token/comment/escape set: the scanner state (open quote, previous
-    character, comment) is carried across every fragment boundary -/
+/-- `mpt_memtok` for every token/comment/escape set.  The model has its own byte loop (`Iov.tokBytes`) and the two
+    separate places where the C code moves to the next data part (top of the main loop / inside the comment
+    skip, where the first byte of the new part is tested on its own); the theorem shows that both carry the
+    scanner state (open quote, previous character, comment) correctly, i.e. agree with the one-pass scan of
+    the contiguous bytes -/
 theorem tok_flat (frags : List Frag) (a : TokArgs) : Iov.memtok frags a = Flat.tok frags.flatten a :=
   memtok_eq frags a
 example : Iov.memtok [[39, 97], [32, 98, 39], [], [32]] wsTok = some 5 := by decide
+
+/-- `nextSpace` of message_argv.c (the hand-written quote-aware search that replaced the two `mpt_memtok` calls,
+    fix 3186d50), modelled as its own loop with `pos += len` per part: it finds what `mpt_memtok` with the
+    white-space token set finds on the contiguous bytes -/
+theorem next_space_flat (curr : Frag) (cont : List Frag) :
+    Iov.nextSpace curr cont = Flat.tok (curr ++ cont.flatten) wsTok :=
+  nextSpace_eq curr cont
+example : Iov.nextSpace [39, 97] [[], [32, 98, 92], [39, 39, 32]] = some 7 := by decide
 
 /-- `mpt_message_append` (after fix 4f20369): the array grows by exactly the message content -/
 theorem append_flat (arr : List Byte) (m : Msg) : m.append arr = Flat.append arr m.flat :=
@@ -183,18 +194,27 @@ theorem get_refused (r : Ring) (pos take : Nat) (hgt : r.len < pos + take) :
     ∃ e, Msg.get r pos take = .err e :=
   Mpt.get_refused r pos take hgt
 
-/-- `mpt_message_get` without a second iovec: either the single-fragment message denoting exactly the
-    requested stretch, or refused with −3 (the stretch wraps and would need a second fragment) -/
+/-- `mpt_message_get` without a second iovec is refused (−3) EXACTLY when the requested stretch starts in the
+    first data part (`low = min (max − off) len` bytes up to the end of the storage) and runs beyond it;
+    in every other case the single-fragment message denoting exactly the stretch is returned -/
 theorem get_novec (r : Ring) (h : r.len ≤ r.store.length ∧ r.off ≤ r.store.length) (pos take : Nat)
     (hle : pos + take ≤ r.len) :
-    (∃ m, Msg.getNoVec r pos take = .ok m ∧ m.cont = [] ∧ some m.flat = Flat.get r.content pos take) ∨
-    Msg.getNoVec r pos take = .err .BadType := by
-  obtain ⟨m, h1, h2⟩ := get_flat r h pos take hle
+    ((pos < min (r.store.length - r.off) r.len ∧ min (r.store.length - r.off) r.len < pos + take) →
+      Msg.getNoVec r pos take = .err .BadType) ∧
+    (¬ (pos < min (r.store.length - r.off) r.len ∧ min (r.store.length - r.off) r.len < pos + take) →
+      ∃ m, Msg.getNoVec r pos take = .ok m ∧ m.cont = [] ∧ some m.flat = Flat.get r.content pos take) := by
+  obtain ⟨m, h1, hw, hn⟩ := get_shape r h pos take hle
+  obtain ⟨m', h1', h2'⟩ := get_flat r h pos take hle
+  rw [h1] at h1'; cases h1'
   unfold Msg.getNoVec
   rw [h1]
-  by_cases hc : m.cont.length = 0
-  · exact Or.inl ⟨m, by simp [hc], List.eq_nil_of_length_eq_zero hc, h2⟩
-  · exact Or.inr (by simp [hc])
+  constructor
+  · intro hc
+    have := hw hc
+    simp [this]
+  · intro hc
+    have := hn hc
+    exact ⟨m, by simp [this], this, h2'⟩
 example : Msg.getNoVec (Ring.make 4 3 [1, 2, 3]) 0 3 = .err .BadType ∧
     Msg.getNoVec (Ring.make 4 3 [1, 2, 3]) 1 2 = .ok ⟨[2, 3], []⟩ := by decide
 
